@@ -502,3 +502,88 @@ Proof. intros. apply refs_are_current_ids. Qed.
 Theorem refs_in_file : forall ids n, exists n', read_node (emit_node (resolve ids n)) = Some n' /\
   node_refs n' = map ids (mnode_targets n).
 Proof. intros. exists (resolve ids n). split; [apply read_emit_node | apply refs_are_current_ids]. Qed.
+
+(* ---------------- _correctValInNode: add / update / remove agree with the value ---------------- *)
+Lemma is_tag_set_text t v c : is_tag ns t (set_text v c) = is_tag ns t c.
+Proof. destruct c; reflexivity. Qed.
+
+Lemma find_none_sub {A} (p : A -> bool) l : List.find p l = None -> forall x, In x l -> p x = false.
+Proof.
+  induction l as [|a r IH]; simpl; intros H x Hin; [contradiction|].
+  destruct (p a) eqn:E; [discriminate|]. destruct Hin as [->|Hin]; [exact E | apply IH; assumption].
+Qed.
+
+Lemma find_none_of_all {A} (p : A -> bool) l : (forall x, In x l -> p x = false) -> List.find p l = None.
+Proof. induction l as [|a r IH]; simpl; intro H; [reflexivity|]. rewrite (H a (or_introl eq_refl)). apply IH. intros; apply H; right; assumption. Qed.
+
+Lemma In_firstn' {A} (n : nat) (l : list A) x : In x (firstn n l) -> In x l.
+Proof. revert l. induction n as [|n IH]; intros [|y r]; simpl; try tauto. intros [H|H]; [left; exact H | right; apply IH; exact H]. Qed.
+
+Lemma find_set_first_text t v kids c :
+  List.find (is_tag ns t) kids = Some c ->
+  List.find (is_tag ns t) (set_first_text t v kids) = Some (set_text v c).
+Proof.
+  induction kids as [|k r IH]; simpl; [discriminate|].
+  destruct (is_tag ns t k) eqn:E; simpl.
+  - intro H. inversion H; subst. rewrite is_tag_set_text, E. reflexivity.
+  - rewrite E. exact IH.
+Qed.
+
+Lemma filter_remove_first_tag t kids :
+  filter (is_tag ns t) (remove_first_tag t kids) = tl (filter (is_tag ns t) kids).
+Proof.
+  induction kids as [|k r IH]; simpl; [reflexivity|].
+  destruct (is_tag ns t k) eqn:E; simpl; [reflexivity|]. rewrite E. exact IH.
+Qed.
+
+Lemma find_filter_hd {A} (p : A -> bool) l : List.find p l = hd_error (filter p l).
+Proof. induction l as [|a r IH]; simpl; [reflexivity|]. destruct (p a); [reflexivity | exact IH]. Qed.
+
+Lemma is_tag_new t v : is_tag ns t (el t [] (Some v) []) = true.
+Proof. unfold is_tag, el. simpl. rewrite N.eqb_refl. reflexivity. Qed.
+
+Theorem optional_child_value : forall t value after kids,
+  (length (filter (is_tag ns t) kids) <= 1)%nat ->
+  read_opt t (correct_val t value after kids) = value.
+Proof.
+  intros t value after kids Hone. unfold read_opt, correct_val.
+  destruct (List.find (is_tag ns t) kids) as [c|] eqn:Ef; destruct value as [v|].
+  - rewrite (find_set_first_text t v kids c Ef). destruct c; reflexivity.
+  - rewrite find_filter_hd, filter_remove_first_tag.
+    destruct (filter (is_tag ns t) kids) as [|a [|b r]]; simpl in *; try reflexivity. lia.
+  - destruct after as [a|].
+    + rewrite find_app_none.
+      * simpl. rewrite is_tag_new. reflexivity.
+      * apply find_none_of_all. intros x Hx. apply (find_none_sub _ _ Ef). eapply In_firstn'. exact Hx.
+    + rewrite find_app_none by exact Ef. simpl. rewrite is_tag_new. reflexivity.
+  - rewrite Ef. reflexivity.
+Qed.
+
+(* the other children are untouched: same elements, same order *)
+Lemma is_tag_diff t t' c : t' <> t -> is_tag ns t c = true -> is_tag ns t' c = false.
+Proof.
+  unfold is_tag. intros Hne H. apply andb_true_iff in H. destruct H as [Hn Ht]. rewrite Hn. simpl.
+  apply N.eqb_eq in Ht. apply N.eqb_neq. congruence.
+Qed.
+
+Theorem optional_child_others : forall t value after kids t', t' <> t ->
+  map xuid (filter (is_tag ns t') (correct_val t value after kids)) = map xuid (filter (is_tag ns t') kids) /\
+  map xtext (filter (is_tag ns t') (correct_val t value after kids)) = map xtext (filter (is_tag ns t') kids).
+Proof.
+  intros t value after kids t' Hne. unfold correct_val.
+  destruct (List.find (is_tag ns t) kids) as [c|] eqn:Ef; destruct value as [v|].
+  - clear Ef. induction kids as [|k r IH]; simpl; [split; reflexivity|].
+    destruct (is_tag ns t k) eqn:E; simpl.
+    + rewrite is_tag_set_text, (is_tag_diff t t' k Hne E). split; reflexivity.
+    + destruct (is_tag ns t' k); simpl; destruct IH as [I1 I2]; rewrite ?I1, ?I2; split; reflexivity.
+  - clear Ef. induction kids as [|k r IH]; simpl; [split; reflexivity|].
+    destruct (is_tag ns t k) eqn:E; simpl.
+    + rewrite (is_tag_diff t t' k Hne E). split; reflexivity.
+    + destruct (is_tag ns t' k); simpl; destruct IH as [I1 I2]; rewrite ?I1, ?I2; split; reflexivity.
+  - assert (Hnew : is_tag ns t' (el t [] (Some v) []) = false).
+    { unfold is_tag, el. simpl. apply N.eqb_neq. congruence. }
+    destruct after as [a|].
+    + rewrite filter_app. simpl. rewrite Hnew. rewrite <- filter_app, firstn_skipn. split; reflexivity.
+    + rewrite filter_app. simpl. rewrite Hnew, app_nil_r. split; reflexivity.
+  - split; reflexivity.
+Qed.
